@@ -553,6 +553,8 @@ var (
 	tFxPoor = Template{Name: "fxpoor", Consumer: "C2", Service: "a", Providers: []string{"P1"}, Cap: 5, Timeout: 1, Repeated: true, Freq: 1, Total: 2}
 )
 
+var tFxMod = Template{Name: "fxmod", Consumer: "C1", Service: "a", Providers: []string{"P1"}, Cap: 5, Timeout: 1, Repeated: true, Freq: 2, Total: 3, Module: ModOther, Threshold: 1}
+
 func fxSpec(failAt ...int64) *FXSpec {
 	return &FXSpec{Rates: map[string][]string{"cent-stake": {"0.03", "0.015"}}, FailAt: failAt}
 }
@@ -565,7 +567,7 @@ func scFX(ps ParamSet, p1pricing string, tmpls []Template, o AlphaOpts, fx *FXSp
 		}}
 	return &Scenario{
 		Name: "S-FX(" + p1pricing + ")", Params: ps,
-		Rig:   RigConfig{FX: fx},
+		Rig:   RigConfig{FX: fx, CallbackModules: []string{ModOther}},
 		Funds: []Funding{{O1, 200}, {O2, 200}, {C1, 12}, {C2, 2}}, Extra: allAccounts,
 		Setup: []Action{install, actDefine("a", "AU"),
 			actBind("a", "P1", "O1", 10, p1pricing, 1), actBind("a", "P2", "O2", 10, "p1", 1), actBind("a", "P3", "O2", 10, "fkilo2", 1)},
@@ -582,8 +584,12 @@ func scBindFX(ps ParamSet, depth, blocks, msgs int) *Scenario {
 		actBind("a", "P1", "O1", 30, "fkilo20", 1), actBind("a", "P1", "O1", 40, "fkilo20", 1), actBind("a", "P1", "O1", 10, "fusd1", 1), actBind("a", "P1", "O1", 9, "fusd1", 1),
 		actBind("a", "P1", "O1", 10, "fyen", 1),
 		actUpdate("a", "P1", "O1", 0, "fkilo20", 0), actUpdate("a", "P1", "O1", 30, "fkilo20", 0), actUpdate("a", "P1", "O1", 0, "fusd1", 0), actUpdate("a", "P1", "O1", 0, "fkilo2", 0),
-		actDisable("a", "P1", "O1"), actEnable("a", "P1", "O1", 0), actEnable("a", "P1", "O1", 30)},
+		actDisable("a", "P1", "O1"), actEnable("a", "P1", "O1", 0), actEnable("a", "P1", "O1", 30),
+		// deposits written in the main unit of the base token or in a foreign token (refused by the unmodified module: only coins of the base denomination are taken)
+		actBindCoins("a", "P2", "O2", sdk.NewCoins(sdk.NewInt64Coin("kilo", 1)), "p1"), actBindCoins("a", "P2", "O2", sdk.NewCoins(sdk.NewInt64Coin("cent", 50)), "p1"),
+		actUpdateCoins("a", "P1", "O1", sdk.NewCoins(sdk.NewInt64Coin("kilo", 1)))},
 		[]Template{tSlash}, []string{"bad"}, depth, blocks, msgs)
+	sc.Funds = append(sc.Funds, Funding{O2, 5000})
 	sc.Name, sc.Rig = "S-BIND(main unit and foreign token)", RigConfig{FX: fxSpec()}
 	return sc
 }
